@@ -3,7 +3,8 @@
 Property (properties.jsonl): before any drift is estimated, pixel (r, c) of an (H, W) image is placed at
     canvas centre + R(theta) . (r - (H-1)/2, c - (W-1)/2)
 for every shape, angle, pad fraction and knot count 1..4; every pixel contributes unit total weight to the canvas
-(weight map sums to H*W); identical stacks are a fixed point of translation alignment (bounded only).
+(weight map sums to H*W); identical stacks are a fixed point of translation alignment (proved through content identifiers modulo two
+assumed clauses: warp_image is a function of its inputs, cross_correlation_shift measures zero for identical inputs; numerics bounded).
 """
 from __future__ import annotations
 
@@ -17,7 +18,7 @@ from pyvc.runner import Lemma, Bounded
 from pyvc.lib import c15_models as cm
 from . import C09
 from . import C13
-from .common import registry, forall, implies, AND, OR, NOT, opt_int
+from .common import registry, forall, implies, AND, OR, NOT, opt_int, frame_snapshot, frame_clauses
 
 LEVEL = "proof"
 DR = "quantem.imaging.drift"
@@ -59,6 +60,15 @@ def fork_knots(ctx, choices=KNOTS):
         if ctx.branch(ctx.fresh(f"knots_is_{K}", "bool").t):
             return K
     return choices[-1]
+
+
+def _rt_later(name):
+    """a run-time oracle / family defined further down in this module"""
+    def f(*a, **kw):
+        return globals()[name](*a, **kw)
+
+    f.__name__ = name
+    return f
 
 
 # ------------------------------------------------------------------------------------------------
@@ -503,11 +513,54 @@ def wi_ensures(s):
     ]
 
 
+def same_warp_inputs(p, q):
+    """the inputs of two warp_image calls are equal: image contents, every knot, and the interpolator's shapes, scan vectors,
+    pad value and KDE width"""
+    if p.K != q.K:
+        return z3.BoolVal(False)
+    d, r, k = I("d!w"), I("r!w"), I("k!w")
+    H = lift(p.shapes[0])
+    cl = [p.image_cid == q.image_cid, rterm(p.pad_value) == rterm(q.pad_value), rterm(p.kde_sigma) == rterm(q.kde_sigma)]
+    cl += [lift(a) == lift(b) for a, b in zip(p.shapes, q.shapes)]
+    for v in ("scan_fast", "scan_slow"):
+        cl += [rterm(getattr(p, v).fn(z3.IntVal(j))) == rterm(getattr(q, v).fn(z3.IntVal(j))) for j in (0, 1)]
+    cl.append(forall([d, r, k], implies(AND(d >= 0, d < 2, r >= 0, r < H, k >= 0, k < p.K), rterm(p.knots.fn(d, r, k)) == rterm(q.knots.fn(d, r, k)))))
+    return AND(*cl)
+
+
+def canvas_from_image_clause(ctx, a, im, kn, it, stack):
+    """data flow (proved from the source): slab a of the canvas stack is the result of  interpolator[a].warp_image(image a, knots a)"""
+    calls = ctx.ghost.get("warp_image_calls", [])
+    if a >= len(calls) or not isinstance(stack, StackStub) or not isinstance(kn, SymArr) or kn.ndim != 3 or not isinstance(it, Obj):
+        return False
+    c = calls[a]
+    got = cm.slab_content(stack.array, a)
+    if got is None or V._dim_lit(kn.shape[2]) != c.K:
+        return False
+    d, r, k = I("d!f"), I("r!f"), I("k!f")
+    IF = it.fields
+    return AND(got == c.out[0], c.image_cid == image_cid(ctx, im), rterm(c.pad_value) == rterm(IF["pad_value"]), rterm(c.kde_sigma) == rterm(IF["kde_sigma"]),
+               *[rterm(getattr(c, v).fn(z3.IntVal(j))) == rterm(IF[v].fn(z3.IntVal(j))) for v in ("scan_fast", "scan_slow") for j in (0, 1)],
+               forall([d, r, k], implies(AND(d >= 0, d < 2, r >= 0, r < lift(kn.shape[1]), k >= 0, k < c.K), rterm(c.knots.fn(d, r, k)) == rterm(kn.fn(d, r, k)))))
+
+
 def wi_result(ctx, s):
-    S1, S2 = s.self.fields["output_shape"]
+    F = s.self.fields
+    S1, S2 = F["output_shape"]
     img = ctx.fresh_arr("warped", (S1, S2), "real")
     wts = ctx.fresh_arr("warp_weights", (S1, S2), "real")
     cm.set_total(wts, cm.FormalSum(ctx.fresh("warp_weights_total", "real")))
+    # ASSUMED RELATIONAL CLAUSE (not verified: a statement about two executions): warp_image is a FUNCTION of the image contents,
+    # the knots and the interpolator's fields -- two calls with equal inputs return canvases with equal contents
+    if isinstance(s.image, SymArr) and isinstance(s.knots, SymArr) and s.knots.ndim == 3 and all(s.get(k) is None for k in ("kde_sigma", "output_shape", "pad_value", "upsample_factor")):
+        me = NS(image_cid=cm.content_of(ctx, s.image), knots=s.knots.copy(), K=knot_count(s.knots), shapes=tuple(F["input_shape"]) + (S1, S2),
+                scan_fast=F["scan_fast"], scan_slow=F["scan_slow"], pad_value=F["pad_value"], kde_sigma=F["kde_sigma"],
+                out=(ctx.fresh("warped_content", "int").t, ctx.fresh("warp_weights_content", "int").t))
+        cm.set_content(img, me.out[0])
+        cm.set_content(wts, me.out[1])
+        for prev in ctx.ghost.setdefault("warp_image_calls", []):
+            ctx.assume(implies(same_warp_inputs(prev, me), AND(prev.out[0] == me.out[0], prev.out[1] == me.out[1])))
+        ctx.ghost["warp_image_calls"].append(me)
     return (img, wts)
 
 
@@ -530,6 +583,11 @@ class ImageStub:
         self.shape = shape
         self.array = array
 
+    def _pyvc_signature(self):
+        from pyvc.interp import _value_signature
+
+        return ("image", id(self), id(self.shape), _value_signature(self.array))
+
 
 class StackStub:
     """Dataset3d.from_shape(shape): an object with a zero `.array` of that shape (trusted)."""
@@ -547,22 +605,209 @@ def slab_total(arr, j):
     return g[0][j].term()
 
 
-def pp_setup(ctx, N=2, pad_kinds=("list", "median"), knots=KNOTS):
+# ------------------------------------------------------------------------------------------------
+# validate_pad_value: one pad value per image; entry k is the requested statistic OF IMAGE k WITH THE CALLER'S PARAMETER
+# ------------------------------------------------------------------------------------------------
+PAD_MODES = ("median", "mean", "min", "max")
+
+
+def image_stubs(ctx, N, H, W, prefix="image"):
+    """N images of shape (H, W); each carries a ghost content identifier (pyvc/lib/c15_models.py: equal identifiers = equal contents)"""
+    return [ImageStub((H, W), cm.set_content(ctx.fresh_arr(f"{prefix}{a}", (H, W), "real"), ctx.fresh(f"{prefix}{a}_content", "int").t)) for a in range(N)]
+
+
+def image_cid(ctx, im):
+    arr = getattr(im, "array", None)
+    return cm.content_of(ctx, arr) if isinstance(arr, SymArr) else None
+
+
+def pad_kind(pv):
+    """the form of a pad_value argument as validate_pad_value distinguishes them"""
+    if isinstance(pv, str):
+        return pv if pv in PAD_MODES else "unknown-string"
+    if isinstance(pv, bool):
+        return "other"
+    if isinstance(pv, Sym):
+        return "quantile" if (pv.is_real or pv.is_int) else "other"
+    if isinstance(pv, (int, float)):
+        return "quantile"
+    if isinstance(pv, list) and all((isinstance(v, Sym) and (v.is_real or v.is_int)) or (isinstance(v, (int, float)) and not isinstance(v, bool)) for v in pv):
+        return "list"
+    return "other"
+
+
+def pad_statistic(kind, pv, cid, k):
+    """THE STATED STATISTIC: what entry k of the validated pad value must be for an image with content identifier `cid`"""
+    if kind in PAD_MODES:
+        return cm.STAT[kind](cid)
+    if kind == "quantile":
+        return cm.QUANTILE(cid, rterm(pv))
+    if kind == "list":
+        return rterm(pv[k])
+    return None
+
+
+def vpv_setup(ctx):
+    N = STACK[-1]
+    for n in STACK[:-1]:
+        if ctx.branch(ctx.fresh(f"stack_of_{n}", "bool").t):
+            N = n
+            break
+    images = []
+    for a in range(N):  # the validator does not look at shapes: every image has its own
+        images += image_stubs(ctx, 1, ctx.fresh(f"H{a}", "int"), ctx.fresh(f"W{a}", "int"), prefix=f"image{a}_")
+    forms = list(PAD_MODES) + ["quantile", "integer-quantile", "list", "list-with-an-int", "list-of-another-length", "none"]
+    form = forms[-1]
+    for f in forms[:-1]:
+        if ctx.branch(ctx.fresh(f"pad_value_form_{f}", "bool").t):
+            form = f
+            break
+    if form in PAD_MODES:
+        pv = form
+    elif form == "quantile":
+        pv = ctx.fresh("quantile_level", "real")
+    elif form == "integer-quantile":
+        pv = ctx.fresh("quantile_level", "int")
+    elif form == "list":
+        pv = [ctx.fresh(f"pad_value{a}", "real") for a in range(N)]
+    elif form == "list-with-an-int":
+        pv = [ctx.fresh(f"pad_value{a}", "int" if a == 0 else "real") for a in range(N)]
+    elif form == "list-of-another-length":
+        pv = [ctx.fresh(f"pad_value{a}", "real") for a in range(N + 1)]
+    else:
+        pv = None
+    return NS(pad_value=pv, images=images, N=N, form=form, case=f"N={N},{form}")
+
+
+def vpv_requires(s):
+    ok = isinstance(s.images, list) and all(isinstance(getattr(im, "array", None), SymArr) for im in s.images)
+    # an unknown mode string is passed through unvalidated by the real function: not an accepted form, outside the property
+    return [("images-is-a-list-of-images", ok), ("pad_value-is-not-an-unknown-mode-string", pad_kind(s.pad_value) != "unknown-string")]
+
+
+def vpv_raises_value(s):
+    kind = pad_kind(s.pad_value)
+    if kind == "quantile":
+        q = rterm(s.pad_value)
+        return OR(q < 0, q > 1)
+    if kind == "list":
+        return len(s.pad_value) != len(s.images)
+    return False
+
+
+def vpv_ensures(s):
+    kind = pad_kind(s.pad_value)
+    N = len(s.images)
+    res = s.result
+    ok = isinstance(res, list) and len(res) == N and all(isinstance(v, (Sym, int, float)) and not isinstance(v, bool) for v in res)
+    out = [("one-pad-value-per-image", ok)]
+    if not ok:
+        return out
+    cids = [image_cid(s.ctx, im) for im in s.images]
+    what = {"quantile": "np.quantile(image-k,the-caller's-level)", "list": "the-caller's-entry-k"}.get(kind, f"np.{kind}(image-k)")
+    for k in range(N):
+        out.append((f"entry{k}-is-{what}".replace("-k", f"-{k}"), rterm(res[k]) == pad_statistic(kind, s.pad_value, cids[k], k)))
+    if kind != "list":
+        for a in range(N):
+            for b in range(a + 1, N):
+                out.append((f"identical-images-{a},{b}-get-identical-pad-values", implies(cids[a] == cids[b], rterm(res[a]) == rterm(res[b]))))
+    if s.mode == "verify":
+        out += frame_clauses(s, s.old.frame)
+    return out
+
+
+def vpv_result(ctx, s):
+    if pad_kind(s.pad_value) == "list":
+        return s.pad_value  # the caller's own list is handed back
+    return [ctx.fresh(f"validated_pad_value{k}", "real") for k in range(len(s.images))]
+
+
+C_VPV = Contract(f"{CV}:validate_pad_value", setup=vpv_setup, requires=vpv_requires, ensures=vpv_ensures, result=vpv_result,
+                 raises={ValueError: vpv_raises_value, TypeError: lambda s: pad_kind(s.pad_value) == "other"},
+                 snapshot=lambda s: NS(frame=frame_snapshot(s, ["images", "pad_value"])))
+
+
+def rt_pad_value(inp):
+    """validate_pad_value on the real function: entry k is the requested statistic of image k with the caller's parameter."""
+    import numpy as np
+    from quantem.core.datastructures import Dataset2d
+    from quantem.core.utils.compound_validators import validate_pad_value
+
+    rng = np.random.default_rng(inp.get("seed", 0))
+    N = inp["N"]
+    arrs = [rng.random((3 + a, 4)) for a in range(N)]
+    if inp.get("identical"):
+        arrs = [arrs[0].copy() for _ in range(N)]
+    ims = [Dataset2d.from_array(a.copy()) for a in arrs]
+    form = inp["form"]
+    pv = form if form in PAD_MODES else inp["q"] if form == "quantile" else [float(v) for v in rng.random(N + (1 if form == "list-of-another-length" else 0))] if form.startswith("list") else None
+    given = list(pv) if isinstance(pv, list) else pv
+    want_exc = ValueError if (form == "quantile" and not 0 <= pv <= 1) or form == "list-of-another-length" else TypeError if pv is None else None
+    try:
+        got = validate_pad_value(pv, ims)
+    except (ValueError, TypeError) as e:
+        return dict(violated=type(e) is not want_exc, observed=f"raised {type(e).__name__}", expected=f"{want_exc.__name__ if want_exc else 'a list of pad values'}")
+    if want_exc is not None:
+        return dict(violated=True, observed=f"returned {got!r}", expected=f"raises {want_exc.__name__}")
+    f = {"median": np.median, "mean": np.mean, "min": np.min, "max": np.max}
+    want = [f[form](a) for a in arrs] if form in f else [np.quantile(a, pv) for a in arrs] if form == "quantile" else given
+    notes = []
+    if not (isinstance(got, list) and len(got) == N and _close(got, want, 1e-12)):
+        notes.append(f"pad values {np.round(np.asarray(got, float), 6).tolist() if isinstance(got, list) else got!r} != the statistic of each image {np.round(np.asarray(want, float), 6).tolist()}")
+    if any(not np.array_equal(i.array, a) for i, a in zip(ims, arrs)):
+        notes.append("an image was written")
+    return dict(violated=bool(notes), observed="; ".join(notes) or "ok", expected="entry k = statistic of image k with the caller's parameter; images untouched")
+
+
+def fam_pad_value(tier="quick", seed=0):
+    i = 0
+    for N in STACK:
+        for identical in (False, True):
+            for form in PAD_MODES + ("list", "list-of-another-length", "none"):
+                i += 1
+                yield dict(N=N, form=form, identical=identical, seed=seed + i)
+            for q in (0.0, 0.25, 0.5, 0.9, 1, 1.0, -0.1, 1.5):
+                i += 1
+                yield dict(N=N, form="quantile", q=q, identical=identical, seed=seed + i)
+
+
+def conc_pad_value(ev):
+    N = 2 if ev("stack_of_2", False) else 3 if ev("stack_of_3", False) else 4
+    for f in PAD_MODES + ("list", "list-of-another-length"):
+        if ev(f"pad_value_form_{f}", False):
+            return dict(N=N, form=f, seed=1)
+    if ev("pad_value_form_quantile", False) or ev("pad_value_form_integer-quantile", False):
+        q = ev("quantile_level", 0.25)
+        return dict(N=N, form="quantile", q=float(q) if isinstance(q, (int, float)) and 0 < q < 1 else 0.25, identical=True, seed=1)
+    return None
+
+
+def pp_setup(ctx, N=2, pad_kinds=("list", "quantile", "median"), knots=KNOTS):
     K = fork_knots(ctx, knots)
     H, W = ctx.fresh("H", "int"), ctx.fresh("W", "int")
-    images = [ImageStub((H, W), ctx.fresh_arr(f"image{a}", (H, W), "real")) for a in range(N)]
+    images = image_stubs(ctx, N, H, W)
     deg = ctx.fresh_arr("scan_direction_degrees", (N,), "real")
     o = Obj(DC, dict(_images=images, _scan_direction_degrees=deg))
-    if len(pad_kinds) == 1 or ctx.branch(ctx.fresh("pad_value_is_a_list", "bool").t):
+    kind = pad_kinds[-1]
+    for kd in pad_kinds[:-1]:
+        if ctx.branch(ctx.fresh(f"pad_value_is_a_{kd}", "bool").t):
+            kind = kd
+            break
+    if kind == "list":
         pad_value = [ctx.fresh(f"pad_value{a}", "real") for a in range(N)]
+    elif kind == "quantile":
+        pad_value = ctx.fresh("quantile_level", "real")
     else:
-        pad_value = "median"
+        pad_value = kind
     return NS(self=o, pad_fraction=ctx.fresh("pad_fraction", "real"), pad_value=pad_value, kde_sigma=ctx.fresh("kde_sigma", "real"),
               number_knots=K, show_merged=False, show_images=False, show_knots=True, N=N, K=K, H=H, W=W, case=f"N={N},K={K}")
 
 
 def pp_requires(s):
-    return [("H>=2", lift(s.H) >= 2), ("W>=2", lift(s.W) >= 2), ("pad_fraction>=0", lift(s.pad_fraction) >= 0), ("kde_sigma>=0", lift(s.kde_sigma) >= 0)]
+    out = [("H>=2", lift(s.H) >= 2), ("W>=2", lift(s.W) >= 2), ("pad_fraction>=0", lift(s.pad_fraction) >= 0), ("kde_sigma>=0", lift(s.kde_sigma) >= 0)]
+    if pad_kind(s.pad_value) == "quantile":
+        out.append(("quantile-level-in-[0,1]", AND(rterm(s.pad_value) >= 0, rterm(s.pad_value) <= 1)))
+    return out
 
 
 def rotation(theta_deg):
@@ -634,15 +879,34 @@ def pp_ensures(s):
             out.append((f"image{a}:interpolator-shapes", AND(lift(ih) == lift(H), lift(iw) == lift(W), lift(o1) == S1, lift(o2) == S2)))
             out.append((f"image{a}:interpolator-scan-vectors", AND(*[rterm(IF["scan_fast"].fn(z3.IntVal(d))) == fast[d] for d in (0, 1)],
                                                                       *[rterm(IF["scan_slow"].fn(z3.IntVal(d))) == slow[d] for d in (0, 1)])))
+            # the pad value the canvas of image a is filled with is entry a of the validated pad value = the requested statistic OF
+            # IMAGE a with the caller's parameter (validate_pad_value's contract carried to the interpolator)
+            want = pad_statistic(pad_kind(s.pad_value), s.pad_value, image_cid(s.ctx, F["_images"][a]), a)
+            ipv, spv = IF.get("pad_value"), F.get("_pad_value")
+            okp = isinstance(ipv, (Sym, int, float)) and isinstance(spv, list) and len(spv) == N and want is not None
+            out.append((f"image{a}:canvas-pad-value-is-the-requested-statistic-of-image-{a}-with-the-caller's-parameter",
+                        AND(rterm(ipv) == want, rterm(spv[a]) == want) if okp else False))
+            out.append((f"image{a}:interpolator-kde-width-is-the-given-one", rterm(IF.get("kde_sigma")) == rterm(s.kde_sigma) if isinstance(IF.get("kde_sigma"), (Sym, int, float)) else False))
         ww = F.get("weights_warped")
         tot = slab_total(ww.array, a) if isinstance(ww, StackStub) else None
         out.append((f"image{a}:initial-weight-map-sums-to-the-number-of-image-pixels", False if tot is None else tot == R_(lift(H) * lift(W))))
+    # relational clause (rests on warp_image's ASSUMED functionality; everything else -- same knots, same scan vectors, same canvas,
+    # same pad value [validate_pad_value's contract], the image handed over is image a -- is proved from the source)
+    iw = F.get("images_warped")
+    for a in range(N):
+        out.append((f"image{a}:initial-canvas-{a}-is-warp_image(image-{a},knots-{a})-by-interpolator-{a}", canvas_from_image_clause(s.ctx, a, F["_images"][a], knots[a], interps[a], iw)))
+    for a in range(1, N):
+        c0, ca = image_cid(s.ctx, F["_images"][0]), image_cid(s.ctx, F["_images"][a])
+        same = [ca == c0, rterm(deg.fn(z3.IntVal(a))) == rterm(deg.fn(z3.IntVal(0)))]
+        if pad_kind(s.pad_value) == "list":
+            same.append(rterm(s.pad_value[a]) == rterm(s.pad_value[0]))
+        w0, wa = (cm.slab_content(iw.array, 0), cm.slab_content(iw.array, a)) if isinstance(iw, StackStub) else (None, None)
+        out.append((f"image{a}:identical-to-image0-with-the-same-scan-direction=>identical-initial-canvas", False if w0 is None or wa is None else implies(AND(*same), wa == w0)))
     return out
 
 
 PP_INLINE = [f"{DR}:DriftCorrection.images", f"{DR}:DriftCorrection.pad_value", f"{DR}:DriftCorrection.scan_direction_degrees",
-             f"{DR}:DriftCorrection.pad_fraction", f"{DR}:DriftCorrection.kde_sigma", f"{DR}:DriftCorrection.number_knots",
-             f"{CV}:validate_pad_value"]
+             f"{DR}:DriftCorrection.pad_fraction", f"{DR}:DriftCorrection.kde_sigma", f"{DR}:DriftCorrection.number_knots"]  # validate_pad_value: by contract
 # one contract object per stack size (2..4 = the property's range) so that they are verified in parallel; the knot count only
 # enters per image, so all of 1..4 are run for stacks of 2 and the extremes 1 and 4 for stacks of 3 and 4
 C_PP = Contract(f"{DR}:DriftCorrection.preprocess", setup=pp_setup, requires=pp_requires, ensures=pp_ensures, inline=PP_INLINE)
@@ -710,6 +974,37 @@ C_DCINIT = Contract(f"{DR}:DriftCorrection.__init__", setup=dcinit_setup,
                     raises={RuntimeError: lambda s: s._token is not DC._token})
 
 
+def pvset_setup(ctx):
+    H, W = ctx.fresh("H", "int"), ctx.fresh("W", "int")
+    images = image_stubs(ctx, 3, H, W)
+    form = "median"
+    for f in ("list", "quantile"):
+        if ctx.branch(ctx.fresh(f"pad_value_is_a_{f}", "bool").t):
+            form = f
+            break
+    value = [ctx.fresh(f"pad_value{a}", "real") for a in range(3)] if form == "list" else ctx.fresh("quantile_level", "real") if form == "quantile" else form
+    old = [ctx.fresh(f"pad_value_stored_before{a}", "real") for a in range(3)]  # the attribute already holds OTHER values from an earlier assignment
+    return NS(self=Obj(DC, dict(_images=images, _pad_value=old)), value=value, case=form)
+
+
+def pvset_ensures(s):
+    o = s.self
+    st, ims = o.fields.get("_pad_value"), o.fields.get("_images")
+    kind = pad_kind(s.value)
+    ok = isinstance(st, list) and isinstance(ims, list) and len(st) == len(ims)
+    out = [("stores-one-pad-value-per-image", ok)]
+    if ok:
+        out += [(f"stored-entry{k}-is-the-requested-statistic-of-image-{k}-with-the-caller's-parameter",
+                 rterm(st[k]) == pad_statistic(kind, s.value, image_cid(s.ctx, ims[k]), k)) for k in range(len(ims))]
+    return out
+
+
+C_PVSET = Contract(f"{DR}:DriftCorrection.pad_value.fset", setup=pvset_setup, ensures=pvset_ensures,
+                   requires=lambda s: [("quantile-level-in-[0,1]", AND(rterm(s.value) >= 0, rterm(s.value) <= 1))] if pad_kind(s.value) == "quantile" else [],
+                   inline=[f"{DR}:DriftCorrection.images"])
+C_PVSET.rt, C_PVSET.rt_family = _rt_later("rt_pad_value"), _rt_later("fam_pad_value")
+
+
 # opaque collaborator (NOT verified): error bookkeeping; assumed frame = writes only self.error_track
 C_CALCERR = Contract(f"{DR}:DriftCorrection.calculate_error", setup=lambda ctx: NS(self=Obj(DC, {}), mode=0),
                      note="assumed frame: writes only self.error_track (not verified)")
@@ -729,7 +1024,7 @@ def at_setup(ctx):
     K = fork_knots(ctx, (1, 4))  # the bookkeeping does not look at the knot axis: smallest and largest count
     H, W = ctx.fresh("H", "int"), ctx.fresh("W", "int")
     S1, S2 = ctx.fresh("S1", "int"), ctx.fresh("S2", "int")
-    images = [ImageStub((H, W), ctx.fresh_arr(f"image{a}", (H, W), "real")) for a in range(N)]
+    images = image_stubs(ctx, N, H, W)
     interps = []
     for a in range(N):
         f = dict(input_shape=(H, W), output_shape=(S1, S2), scan_fast=ctx.fresh_arr(f"scan_fast{a}", (2,), "real"), scan_slow=ctx.fresh_arr(f"scan_slow{a}", (2,), "real"),
@@ -737,8 +1032,9 @@ def at_setup(ctx):
         f.update(derived_fields(H, W))
         interps.append(Obj(DI, f))
     o = Obj(DC, dict(_images=images, shape=(N, S1, S2), knots=[ctx.fresh_arr(f"knots{a}", (2, H, K), "real") for a in range(N)], interpolator=interps,
-                     images_warped=StackStub(ctx.fresh_arr("images_warped", (N, S1, S2), "real")), weights_warped=StackStub(ctx.fresh_arr("weights_warped", (N, S1, S2), "real"))))
-    return NS(self=o, upsample_factor=ctx.fresh("upsample_factor", "int"), min_image_shift=None, max_image_shift=ctx.fresh("max_image_shift", "real"),
+                     images_warped=StackStub(cm.set_slab_contents(ctx.fresh_arr("images_warped", (N, S1, S2), "real"), {a: ctx.fresh(f"canvas{a}_content", "int").t for a in range(N)})),
+                     weights_warped=StackStub(ctx.fresh_arr("weights_warped", (N, S1, S2), "real"))))
+    return NS(self=o, canvas_cids=[cm.slab_content(o.fields["images_warped"].array, a) for a in range(N)], upsample_factor=ctx.fresh("upsample_factor", "int"), min_image_shift=None, max_image_shift=ctx.fresh("max_image_shift", "real"),
               show_merged=False, show_images=False, show_knots=True, N=N, K=K, H=H, W=W, case=f"N={N},K={K}")
 
 
@@ -765,6 +1061,11 @@ def at_ensures(s):
     inr = AND(r >= 0, r < lift(H), k >= 0, k < K)
     allzero = AND(*[c == 0 for p in sh for c in p])
     knots = o.fields["knots"]
+    # THE FIXED-POINT CLAUSE: identical canvases (equal content identifiers) => every measured shift is zero and no knot moves.
+    # Rests on the ASSUMED clause of cross_correlation_shift (zero shift for identical inputs, C13); proved from the source: each
+    # call receives the FFT of canvas `ind` and the running mean reference, which stays the FFT of the common canvas.
+    identical = AND(*[cid == s.canvas_cids[0] for cid in s.canvas_cids[1:]])
+    out.append(("identical-canvases=>every-measured-relative-shift-is-zero", implies(identical, allzero)))
     for a in range(N):
         kn, old = knots[a], s.old.knots[a]
         ok = isinstance(kn, SymArr) and kn.ndim == 3
@@ -777,6 +1078,10 @@ def at_ensures(s):
                         forall([r, k], implies(inr, rterm(kn.fn(z3.IntVal(d), r, k)) == rterm(old.fn(z3.IntVal(d), r, k)) + sh[a][d] - mean))))
             out.append((f"image{a}:zero-measured-shifts=>knots[{d}]-do-not-move",
                         implies(allzero, forall([r, k], implies(inr, rterm(kn.fn(z3.IntVal(d), r, k)) == rterm(old.fn(z3.IntVal(d), r, k)))))))
+            out.append((f"image{a}:identical-canvases=>knots[{d}]-do-not-move",
+                        implies(identical, forall([r, k], implies(inr, rterm(kn.fn(z3.IntVal(d), r, k)) == rterm(old.fn(z3.IntVal(d), r, k)))))))
+        out.append((f"image{a}:re-warped-canvas-{a}-is-warp_image(image-{a},moved-knots-{a})-by-interpolator-{a}",
+                    canvas_from_image_clause(s.ctx, a, o.fields["_images"][a], kn, o.fields["interpolator"][a], o.fields.get("images_warped"))))
         ww = o.fields.get("weights_warped")
         tot = slab_total(ww.array, a) if isinstance(ww, StackStub) else None
         out.append((f"image{a}:re-warped-weight-map-sums-to-the-number-of-image-pixels", False if tot is None else tot == R_(lift(H) * lift(W))))
@@ -787,17 +1092,43 @@ C_AT = Contract(f"{DR}:DriftCorrection.align_translation", setup=at_setup, requi
                 inline=[f"{DR}:DriftCorrection.images"])
 
 
+def _same_opaque(a, b):
+    OA = _REG["reg"].OpaqueArray
+    if not (isinstance(a, OA) and isinstance(b, OA)) or a.tok is None or b.tok is None:
+        return None
+    return AND(a.tok == b.tok, a.scale == b.scale)
+
+
 def ccs_result(ctx, s):
     sh = ctx.fresh_arr("measured_shift", (2,), "real")
     ctx.ghost.setdefault("measured_shifts", []).append(sh)
     if s.get("return_shifted_image", False):
-        return (sh, _REG["reg"].OpaqueArray())
+        OA = _REG["reg"].OpaqueArray
+        out = OA(ctx, None, s.im.scale if isinstance(s.im, OA) else None)
+        return (sh, out)
     return sh
 
 
-# opaque collaborator (NOT verified, outside deductive reach): FFT cross-correlation; only "returns a pair of reals (and an array)" is used
-C_CCS = Contract(f"{IU}:cross_correlation_shift", setup=lambda ctx: NS(im_ref=None, im=None), result=ccs_result,
-                 note="opaque: returns some (row, col) shift [and the shifted image]; its accuracy is the bounded fixed-point check")
+def ccs_ensures(s):
+    """ASSUMED (C13's contract `returns the translation mapping the second image onto the first` + the lemma
+    `fixed-point-through-the-cross-correlation-contract`): for two inputs with IDENTICAL contents the measured shift is (0, 0)
+    and the second image shifted by it is the second image itself."""
+    same = _same_opaque(s.im_ref, s.im)
+    if same is None:
+        return []
+    res = s.result
+    sh, shifted = res if isinstance(res, tuple) else (res, None)
+    cl = [rterm(sh.fn(z3.IntVal(0))) == 0, rterm(sh.fn(z3.IntVal(1))) == 0]
+    if shifted is not None and shifted.tok is not None:
+        cl.append(shifted.tok == s.im.tok)
+    return [("ASSUMED:identical-inputs=>zero-shift-and-the-shifted-image-is-the-image", implies(same, AND(*cl)))]
+
+
+# opaque collaborator (NOT verified here, outside deductive reach): FFT cross-correlation; used: "returns a pair of reals (and an array)"
+# and the ASSUMED clause above
+C_CCS = Contract(f"{IU}:cross_correlation_shift", setup=lambda ctx: NS(im_ref=None, im=None), result=ccs_result, ensures=ccs_ensures,
+                 note="opaque: returns some (row, col) shift [and the shifted image]; ASSUMED: identical inputs => zero shift, shifted image = image "
+                      "(C13's contract + trusted autocorrelation mathematics, see the lemma fixed-point-through-the-cross-correlation-contract)")
 _REG = {}
 
 
@@ -816,7 +1147,7 @@ def _foreign(con, mod):
 # sample a of the window at centre + (a - centre_index)/up, returned shift = position of the local peak) are part of this check
 C13_CONTRACTS = [_foreign(C13.C_CCS, C13), _foreign(C13.C_CCS2, C13), _foreign(C13.C_DFTN, C13)]
 
-CONTRACTS = [C_PP4, C_PP3, C_PP, C_AT] + C13_CONTRACTS + [C_KDE, C_TC, C_WI, C_TR, C_DI_INIT, C_SDSET, C_DCINIT, C09.C_SUBDIVIDE, C09.C_GENERATE]
+CONTRACTS = [C_PP4, C_PP3, C_PP, C_AT] + C13_CONTRACTS + [C_KDE, C_TC, C_WI, C_TR, C_DI_INIT, C_SDSET, C_DCINIT, C_VPV, C_PVSET, C09.C_SUBDIVIDE, C09.C_GENERATE]
 CALLSITE_ONLY = [C_CALCERR, C_CCS]
 
 # ------------------------------------------------------------------------------------------------
@@ -936,6 +1267,22 @@ def lemma_fixed_point(ctx):
          r == -1 / R_(up) - (R_(m1) + R_(m2)) * R_(n))]
 
 
+def lemma_identical_stack(ctx):
+    """The fixed-point clause composed from the contract statements: validate_pad_value.post (identical images get identical pad
+    values) + preprocess.post (identical images, equal scan directions => identical initial canvases) + align_translation.post
+    (identical canvases => every measured shift zero, no knot moves) ==> a stack of identical images acquired with the same scan
+    direction is a fixed point of translation alignment.  (What is ASSUMED underneath: warp_image is a function of its inputs;
+    cross_correlation_shift returns zero for identical inputs.)"""
+    B = z3.Bool
+    same_images, same_angles, same_pad, same_canvases, zero_shifts, knots_fixed = (B(n) for n in ("identical_images", "equal_scan_directions", "identical_pad_values", "identical_canvases", "zero_shifts", "knots_do_not_move"))
+    c0, c1, q = I("content_image0"), I("content_image1"), Rl("q")
+    vpv = z3.Implies(same_images, same_pad)
+    pp = z3.Implies(z3.And(same_images, same_angles, same_pad), same_canvases)
+    at = z3.And(z3.Implies(same_canvases, zero_shifts), z3.Implies(same_canvases, knots_fixed))
+    return [("identical-images-get-identical-pad-values(congruence-of-the-statistic)", [c0 == c1], AND(cm.QUANTILE(c0, q) == cm.QUANTILE(c1, q), *[f(c0) == f(c1) for f in cm.STAT.values()])),
+            ("identical-stack-with-one-scan-direction-is-a-fixed-point-of-align_translation", [vpv, pp, at, same_images, same_angles], AND(zero_shifts, knots_fixed))]
+
+
 def lemma_given_angle(ctx):
     """constructor / setter post (stored angle == given angle, no range restriction) + preprocess post (scan vectors = rotation by
     the STORED angle, knots on the property's lines for it) ==> the geometry is the property's for the GIVEN scan direction over
@@ -956,7 +1303,9 @@ def lemma_given_angle(ctx):
              AND(dc * ff[0] + dr * sf[0] == -(dc * fg[0] + dr * sg[0]), dc * ff[1] + dr * sf[1] == -(dc * fg[1] + dr * sg[1])))]
 
 
-LEMMAS = [Lemma("geometry-for-the-given-scan-direction", lemma_given_angle, uses=["DriftCorrection.__init__", "DriftCorrection.scan_direction_degrees.fset", "DriftCorrection.preprocess"]),
+LEMMAS = [Lemma("identical-stack-is-a-fixed-point(composition-of-the-contracts)", lemma_identical_stack,
+                uses=["validate_pad_value", "DriftCorrection.preprocess", "DriftInterpolator.warp_image", "DriftCorrection.align_translation", "cross_correlation_shift (C13)"]),
+          Lemma("geometry-for-the-given-scan-direction", lemma_given_angle, uses=["DriftCorrection.__init__", "DriftCorrection.scan_direction_degrees.fset", "DriftCorrection.preprocess"]),
           Lemma("fixed-point-through-the-cross-correlation-contract", lemma_fixed_point, uses=["cross_correlation_shift (C13)", "dft_upsample (C13)", "DriftCorrection.align_translation"]),
           Lemma("geometry", lemma_geometry, uses=["DriftCorrection.preprocess", "DriftInterpolator.transform_coordinates"]),
           Lemma("knot-counts-agree", lemma_knot_counts_agree, uses=["DriftInterpolator.transform_coordinates"]),
@@ -1479,11 +1828,15 @@ C_AT.concretize, C_AT.rt, C_AT.rt_family = conc_align, rt_align_bookkeeping, fam
 for _c in (C_SDSET, C_DCINIT):
     _c.rt, _c.rt_family = rt_angles, fam_angles
 C_KDE.concretize, C_KDE.rt, C_KDE.rt_family = conc_weights, rt_weights, fam_weights
+rt_pad_value = _guard(rt_pad_value)
+C_VPV.concretize, C_VPV.rt, C_VPV.rt_family = conc_pad_value, rt_pad_value, fam_pad_value
 C_WI.concretize, C_WI.rt, C_WI.rt_family = conc_rows, rt_warp, fam_warp
 for _c in (C_PP, C_PP3, C_PP4):
     _c.concretize, _c.rt, _c.rt_family = conc_geometry, rt_geometry, fam_geometry
 
 BOUNDED = [
+    Bounded.from_rt("validate_pad_value: entry k is the requested statistic of image k (all forms, identical and different images)", rt_pad_value, fam_pad_value,
+                    "stacks of 2..4 x identical / different images x 4 modes, list, wrong-length list, None, 8 quantile levels incl. rejected ones"),
     Bounded.from_rt("library contracts conform to numpy/scipy (gaussian_filter modes, interp1d, bincount/ravel_multi_index, linspace, round)", rt_models, fam_models,
                     "34 small cases", klass=lambda inp, res: inp["what"]),
     Bounded.from_rt("transform_rows/transform_coordinates on arbitrary straight knot lines", rt_rows, fam_rows, "8 shapes incl. 1xW / Hx1, 1..4 knots, random lines", klass=klass_rows),
@@ -1509,7 +1862,13 @@ TRUSTED = [
     "A4: cos^2 + sin^2 = 1 at the occurring angles (ground instances)",
     "Dataset2d seen as (.shape, .array); Dataset3d.from_shape(shape) seen as an object with a zero .array of that shape",
     "ASSUMED FRAME (not verified): DriftCorrection.calculate_error writes only self.error_track",
-    "at the call site in align_translation cross_correlation_shift is OPAQUE (some pair of reals and an array; np.fft.fft2 results are opaque values); its own "
+    "numpy: median / mean / min / max (of a whole array) and quantile(a, q) are FUNCTIONS of the contents of a (and q); fft2(a) is a function of the contents of a; "
+    "a*X + b*X = (a+b)*X for scalar multiples of one array (ghost content identifiers: equal identifiers = equal contents); isfinite(a): some boolean array of a's shape",
+    "ASSUMED RELATIONAL CLAUSE (a statement about two executions, not verified): DriftInterpolator.warp_image is a function of (image contents, knots, interpolator's "
+    "input/output shape, scan vectors, pad value, KDE width) -- two calls with equal inputs return canvases with equal contents",
+    "ASSUMED CLAUSE on cross_correlation_shift at its call site in align_translation: identical inputs => measured shift (0, 0) and the returned shifted image is the "
+    "second input (C13's contract `returns the translation mapping the second image onto the first` + the lemma below; C13 does not export this clause itself)",
+    "at the call site in align_translation cross_correlation_shift is otherwise OPAQUE (some pair of reals and an array; np.fft.fft2 results are opaque values); its own "
     "contract (C13's objects C_CCS/C_CCS2/C_DFTN, re-verified in this check with C13's registry) is connected to the fixed-point clause by the lemma "
     "`fixed-point-through-the-cross-correlation-contract`, whose hypotheses about the AUTOCORRELATION of a real image (maximal at zero lag and at the centre of its "
     "upsampled window, symmetric neighbours, non-flat) are trusted mathematics (Cauchy-Schwarz; ties excluded), not proved",
@@ -1520,10 +1879,15 @@ ASSUMPTIONS = [
     "A1 floats are reals: coordinates, weights (float32 accumulators pix_count/pix_output) and linspace nodes are exact reals",
     "A2 fixed-width ints are mathematical",
     "A3 np.round is havocked to an integer within 1/2 (canvas size)",
-    "preprocess is verified for stacks of 2, 3, 4 images of one common shape (H, W >= 2), pad_fraction >= 0, kde_sigma >= 0, pad_value a list or 'median'; knot counts 1..4 (the property's range)",
+    "preprocess is verified for stacks of 2, 3, 4 images of one common shape (H, W >= 2), pad_fraction >= 0, kde_sigma >= 0, pad_value a list, a quantile level in [0, 1] or 'median' "
+    "(stacks of 3, 4: a list); knot counts 1..4 (the property's range); validate_pad_value itself is verified for every form it distinguishes (4 mode strings, float / int quantile "
+    "level incl. the rejected levels, lists incl. wrong length, None); an UNKNOWN mode string is passed through unvalidated by the real function (outside the accepted forms: precondition)",
     "bilinear_kde is verified with lowpass_filter=False (what warp_image passes); the lowpass branch (FFT) is outside reach",
-    "identical-stack fixed point of align_translation: the cross-correlation itself is BOUNDED only (FFT, argmax, DFT upsampling are outside deductive reach); "
-    "proved is the bookkeeping around it (min_image_shift=None, the default): knots move by measured shift minus mean, zero measured shifts => knots do not move",
+    "identical-stack fixed point of align_translation: PROVED from the source modulo two assumed clauses (TRUSTED: warp_image is a function of its inputs; "
+    "cross_correlation_shift measures (0, 0) for identical inputs): identical images + equal scan directions => identical pad values, knots, interpolators => identical "
+    "canvases (preprocess); identical canvases => every cross-correlation call compares the FFT of the common canvas with itself (the running-mean reference keeps "
+    "weights ind/(ind+1) + 1/(ind+1) = 1) => zero shifts => no knot moves (align_translation, min_image_shift=None, stacks of 2..4 unrolled). The numerical behaviour of "
+    "the cross-correlation itself (FFT, argmax, DFT upsampling in floating point) stays BOUNDED (the identical-stack family) + C13's contracts",
     "where the splatted weight lands (first moment of the bilinear deposit) is not proved: warp_image is proved to hand the coordinates of transform_coordinates to "
     "bilinear_kde (rows <- xa, cols <- ya); the deposit position itself is a bounded check (single bright pixel, sigma = 0)",
     "a 1-row or 1-column image with pad_fraction=0 gives a canvas of size 0 or 2 (round-half-even of 0.5): outside the verified precondition H, W >= 2",
@@ -1531,4 +1895,6 @@ ASSUMPTIONS = [
 EXPLANATION = ("VCs generated from the real source of DriftCorrection.preprocess, DriftInterpolator.__init__/transform_rows/transform_coordinates/warp_image and "
                "imaging_utils.bilinear_kde (plus generate_batches/subdivide_batches) by symbolic execution over index-function arrays; all shapes, angles, pad "
                "fractions symbolic, knot counts 1..4 and stack sizes 2..4 enumerated; discharged by z3/cvc5; property-level lemmas compose the contracts into the "
-               "property's formula; translation-alignment fixed point only bounded")
+               "property's formula; validate_pad_value / the pad_value setter under contract (entry k = requested statistic of image k, library statistics as functions "
+               "of the array contents) and carried to the interpolators; translation-alignment fixed point proved through relational clauses on content identifiers "
+               "modulo two assumed clauses (warp_image functional, cross_correlation_shift zero for identical inputs), its numerics bounded")
